@@ -154,7 +154,7 @@ check(
 check(
     "C10",
     "other",
-    "bounded symbolic verification that the ordering kernels do not depend on set iteration order: graph_utils.strongly_connected_components/prepare_sccs/topsort and build.sorted_components_inner/order_ascc/deps_filtered/transitive_dep_hash are executed from a source rewrite in which every set/frozenset (constructor calls, displays, comprehensions) iterates in an order given by solver-chosen ranks (a hash-seed model); graphs over 3 modules (every edge absent/direct/indirect) and State.order permutations are solver-chosen too; the SCC sequence, the order inside SCCs and the token stream fed to the transitive-dependency hash must equal the canonical ones; the real find_stale_sccs/order_ascc_ex on the fully fresh graph with solver-chosen 'module has cached diagnostics' flags must flush cached diagnostics in the canonical order. (H1) two builds in one process with solver-chosen typeshed tables and target versions: after the per-build resets of build.build the known-modules memo gives the second build what a fresh process gets. (S1) messages.best_matches with solver-ranked candidate sets returns the canonical suggestion list. (H2) constraints.infer_constraints on real protocol / NamedTuple / tuple types leaves the shared recursion-guard stacks as it found them. Narrow: whole-run hash-seed independence and independence from earlier builds in the same process are not encodable and not claimed. (S2) Options.select_options_affecting_cache with every set-valued keyed option as a solver-ordered set: the value list hashed into cache records is order-independent.",
+    "bounded symbolic verification that the ordering kernels do not depend on set iteration order: graph_utils.strongly_connected_components/prepare_sccs/topsort and build.sorted_components_inner/order_ascc/deps_filtered/transitive_dep_hash are executed from a source rewrite in which every set/frozenset (constructor calls, displays, comprehensions) iterates in an order given by solver-chosen ranks (a hash-seed model); graphs over 3 modules (every edge absent/direct/indirect) and State.order permutations are solver-chosen too; the SCC sequence, the order inside SCCs and the token stream fed to the transitive-dependency hash must equal the canonical ones; the real find_stale_sccs/order_ascc_ex on the fully fresh graph with solver-chosen 'module has cached diagnostics' flags must flush cached diagnostics in the canonical order. (H1) two builds in one process with solver-chosen typeshed tables and target versions: after the per-build resets of build.build the known-modules memo gives the second build what a fresh process gets. (S1) messages.best_matches with solver-ranked candidate sets returns the canonical suggestion list. (H2) constraints.infer_constraints on real protocol / NamedTuple / tuple types leaves the shared recursion-guard stacks as it found them. Narrow: whole-run hash-seed independence and independence from earlier builds in the same process are not encodable and not claimed. (S2) Options.select_options_affecting_cache with every set-valued keyed option as a solver-ordered set: the value list hashed into cache records is order-independent. (S3) State.patch_indirect_dependencies / add_dependency with the detector's result and the module references as solver-ordered sets: the recorded dependency list is order-independent.",
     "trusted: z3; set iteration modelled as a per-run total order on elements; typed token buffer instead of WriteBuffer for the hash input",
     "symbolic execution of a source rewrite of the real code with solver-chosen set iteration orders; replay under 48 PYTHONHASHSEEDs",
     "DESIGN.md 4/C10",
